@@ -81,8 +81,7 @@ Init ==
   /\ st = InitState /\ req = Rq(OpAck, 2, X, Own, X, Own, 0) /\ out = << >>
   /\ opener = << >> /\ taint = FALSE /\ pend = {} /\ collided = FALSE
 
-Next ==
-  \E r \in Reqs : \E o \in Universe(r, st) : \E nx \in NextStates(Cfg, st, r, o, 0, 0) :
+Step(r, o, nx) ==
     /\ st' = nx /\ req' = r /\ out' = o
     /\ opener' = IF r.op = OpReset /\ r.tos \in {0, 1} THEN << >>
                  ELSE IF r.op = OpDiscover /\ r.tos \in {0, 1} /\ Replied(o) /\ opener = << >> THEN r.rs
@@ -96,6 +95,9 @@ Next ==
                    ELSE collided \/ (ForUs(r) /\ \E p \in pend : p.rs = r.rs /\ p.es = r.es /\ p # ObsOf(r))
                                  \/ (r.op = OpReset /\ r.tos = 1)
                                  \/ (r.op \in {OpProbe, OpTrain} /\ r.tos = 1)
+
+Next ==
+  \E r \in Reqs : \E o \in Universe(r, st) : \E nx \in NextStates(Cfg, st, r, o, 0, 0) : Step(r, o, nx)
 
 Spec == Init /\ [][Next]_vars
 
